@@ -11,7 +11,7 @@ PID = "C05"
 LEVEL = "exploration"
 RULE = ("mixed batches (EMPTY/EVALUATED, repeated objects, the same batch evaluated 1..3 times) through Algorithm.evaluate with 1..4 "
         "goals, random min/max, stored precision 0..10 and constraint values at exactly 0 and +-tiny; SweepAlgorithm with "
-        "Custom/Random/LHS/Halton/Uniform generators (generator output tapped); ScipyOpt and NLopt with the scalar bridge tapped. "
+        "Custom/Random/LHS/Halton/Uniform generators (generator output tapped), the same algorithm object swept a second time after its generator was given other designs; ScipyOpt and NLopt with the scalar bridge tapped. "
         "Oracle: call-count model on the harness objective's call log, sign/rounding/marker rules. non-trivial = batch mixing "
         "evaluated and new designs, or a maximised/rounded cost, or a sweep/optimiser run; distinct by the case data")
 ASSUMPTIONS = ["designs left IN_PROGRESS/FAILED by an earlier exception are out of scope (statement speaks of evaluated vs not-yet-evaluated)",
@@ -492,6 +492,7 @@ def requirements(ctx):
     ctx.require("field_checks", 2000)
     ctx.require("marker_rank_checks", 100)
     ctx.require("sweep_runs", 20)
+    ctx.require("second_sweeps_of_one_algorithm_object", 10)
     ctx.require("scalar_queries_checked", 200)
     ctx.require("scipy_runs", 8)
     ctx.require("nlopt_runs", 8)
